@@ -14,19 +14,24 @@ pub uninterp spec fn getter_target(t: Tok) -> Option<Target>;
 pub uninterp spec fn setter_target(t: Tok) -> Option<Target>;
 pub uninterp spec fn ctor_step_target(t: Tok) -> Option<(int, int)>;   // set_const::<offset, width> on the unit under construction
 pub uninterp spec fn is_raw(t: Tok) -> bool;
+// does the emitted getter sign-extend the field's bits before handing them out?  None of the four templates does:
+// `get*(..)` returns the bits zero-extended in a u64, `as #int_ty` truncates, `transmute` / `as _` reinterprets at the
+// full width of the declared type (transcription of the template text; see known finding F18)
+pub uninterp spec fn getter_sign_extends(t: Tok) -> bool;
+pub uninterp spec fn ty_is_signed(t: Tok) -> bool;
 
 // union, wrapper style:  fn #getter(&self) -> #ty { self.#unit.as_ref().get(#o, #w) as #int as _ }   fn #setter(..) { .. self.#unit.as_mut().set(#o, #w, val as u64) }
 #[verifier::external_body] pub fn q_union_accessors(a1: &Tok, a2: &Tok, a3: &Tok, unit1: &Tok, o1: &usize, w1: &u8, a7: &Tok, a8: &Tok, a9: &Tok, a10: &Tok, a11: &Tok, unit2: &Tok, o2: &usize, w2: &u8) -> (r: Tok)
-    ensures getter_target(r) == Some((*unit1, *o1 as int, *w1 as int)), setter_target(r) == Some((*unit2, *o2 as int, *w2 as int)), !is_raw(r) { unimplemented!() }
+    ensures getter_target(r) == Some((*unit1, *o1 as int, *w1 as int)), setter_target(r) == Some((*unit2, *o2 as int, *w2 as int)), !is_raw(r), !getter_sign_extends(r) { unimplemented!() }
 // union, wrapper style, raw:  <#unit_ty>::raw_get((*addr_of!((*this).#unit)).as_ref() .., #o, #w) ..   raw_set((*addr_of_mut!((*this).#unit)).as_mut() .., #o, #w, val as u64)
 #[verifier::external_body] pub fn q_union_raw_accessors(a1: &Tok, a2: &Tok, a3: &Tok, a4: &Tok, a5: &Tok, unit1: &Tok, o1: &usize, w1: &u8, a9: &Tok, a10: &Tok, a11: &Tok, a12: &Tok, a13: &Tok, a14: &Tok, a15: &Tok, unit2: &Tok, o2: &usize, w2: &u8) -> (r: Tok)
-    ensures getter_target(r) == Some((*unit1, *o1 as int, *w1 as int)), setter_target(r) == Some((*unit2, *o2 as int, *w2 as int)), is_raw(r) { unimplemented!() }
+    ensures getter_target(r) == Some((*unit1, *o1 as int, *w1 as int)), setter_target(r) == Some((*unit2, *o2 as int, *w2 as int)), is_raw(r), !getter_sign_extends(r) { unimplemented!() }
 // struct / Rust union:  transmute(self.#unit.get_const::<#o, #w>() as #int)    self.#unit.set_const::<#o, #w>(val as u64)
 #[verifier::external_body] pub fn q_accessors(a1: &Tok, a2: &Tok, a3: &Tok, a4: &Tok, unit1: &Tok, o1: &usize, w1: &u8, a8: &Tok, a9: &Tok, a10: &Tok, a11: &Tok, a12: &Tok, unit2: &Tok, o2: &usize, w2: &u8) -> (r: Tok)
-    ensures getter_target(r) == Some((*unit1, *o1 as int, *w1 as int)), setter_target(r) == Some((*unit2, *o2 as int, *w2 as int)), !is_raw(r) { unimplemented!() }
+    ensures getter_target(r) == Some((*unit1, *o1 as int, *w1 as int)), setter_target(r) == Some((*unit2, *o2 as int, *w2 as int)), !is_raw(r), !getter_sign_extends(r) { unimplemented!() }
 // raw:  transmute(<#unit_ty>::raw_get_const::<#o, #w>(addr_of!((*this).#unit)) as #int)   <#unit_ty>::raw_set_const::<#o, #w>(addr_of_mut!((*this).#unit), val as u64)
 #[verifier::external_body] pub fn q_raw_accessors(a1: &Tok, a2: &Tok, a3: &Tok, a4: &Tok, a5: &Tok, o1: &usize, w1: &u8, a8: &Tok, unit1: &Tok, a10: &Tok, a11: &Tok, a12: &Tok, a13: &Tok, a14: &Tok, a15: &Tok, o2: &usize, w2: &u8, a18: &Tok, unit2: &Tok) -> (r: Tok)
-    ensures getter_target(r) == Some((*unit1, *o1 as int, *w1 as int)), setter_target(r) == Some((*unit2, *o2 as int, *w2 as int)), is_raw(r) { unimplemented!() }
+    ensures getter_target(r) == Some((*unit1, *o1 as int, *w1 as int)), setter_target(r) == Some((*unit2, *o2 as int, *w2 as int)), is_raw(r), !getter_sign_extends(r) { unimplemented!() }
 // __bindgen_bitfield_unit.set_const::<#offset, #width>({ let #p: #int = #p as _; #p as u64 });
 #[verifier::external_body] pub fn q_ctor_step(o: &usize, w: &u8, p1: &Tok, int_ty: &Tok, p2: &Tok, p3: &Tok) -> (r: Tok)
     ensures ctor_step_target(r) == Some((*o as int, *w as int)) { unimplemented!() }
